@@ -102,11 +102,23 @@ def workload_ops(w):
     out = []
     for p in range(w['producers']):
         ops = []
+        if w.get('interleaved'):
+            # two recordings open at once on one producer; the one touched first is saved last
+            a, b = (p, 0), (p, 1)
+            ops += [('create', a), ('create', b), ('set', a, 'k0', 'P%dR0W0' % p), ('set', b, 'k0', 'P%dR1W0' % p), ('meta', b, 'P%dR1M' % p), ('save', b),
+                    ('set', a, 'k1', 'P%dR0W1' % p), ('meta', a, 'P%dR0M' % p), ('save', a)]
+            out.append(ops)
+            continue
         for r in range(w['recordings']):
             ops.append(('create', (p, r)))
             for k in range(w['writes']):
                 ops.append(('set', (p, r), 'k%d' % (k % 2), 'P%dR%dW%d' % (p, r, k)))
             ops.append(('meta', (p, r), 'P%dR%dM' % (p, r)))
+            if w.get('retype_meta'):
+                # the same metadata key written again with a value that compares equal but is another object kind
+                for key, v1, v2 in (('flag', 1, True), ('n', 0, 0.0), ('zero', False, 0)):
+                    ops.append(('metav', (p, r), key, v1))
+                    ops.append(('metav', (p, r), key, v2))
             # a recording that is both aborted and saved (a discard on another thread racing with the recorder's own save): an abort
             # only closes the caller-side recording, writes requested before it are still applied and the save still stores them
             if w.get('abort') == 'before_save' and r == 0:
@@ -128,6 +140,8 @@ def run_producer(cas, ops, recs, note=None):
             recs[op[1]].set_data(op[2], op[3])
         elif op[0] == 'meta':
             recs[op[1]].add_metadata({'m': op[2]})
+        elif op[0] == 'metav':
+            recs[op[1]].add_metadata({op[2]: op[3]})
         elif op[0] == 'abort':
             cas.abort_recording(recs[op[1]])
         else:
@@ -152,6 +166,8 @@ def requested(w):
                 req.append(('set', 'C%d_%d' % op[1], op[2], op[3]))
             elif op[0] == 'meta':
                 req.append(('meta', 'C%d_%d' % op[1], op[2]))
+            elif op[0] == 'metav':
+                req.append(('metav', 'C%d_%d' % op[1], op[2], type(op[3]).__name__, op[3]))
             elif op[0] == 'save':
                 req.append(('save', 'C%d_%d' % op[1]))
     return req
@@ -161,6 +177,9 @@ def norm(app):
     if app[0] == 'set':
         return ('set', app[1].split('/')[0], app[2], app[3])
     if app[0] == 'meta':
+        if 'm' not in app[2]:
+            (k, v), = app[2].items()
+            return ('metav', app[1].split('/')[0], k, type(v).__name__, v)
         return ('meta', app[1].split('/')[0], app[2]['m'])
     return ('save', app[1].split('/')[0])
 
@@ -196,8 +215,9 @@ def judge(ctx, w, store, append_order, blocked_while_storage, close_returned_wit
     if fail_at is None:
         twin = sync_twin(w)
         got = {rid.split('/')[0]: v for rid, v in store.saved.items()}
-        if got != twin:
-            ctx.violation('stored state after close() differs from the synchronous twin', dict(witness, got=got, twin=twin))
+        from vlib.values import teq
+        if not teq(got, twin):
+            ctx.violation('stored state after close() differs from the synchronous twin', dict(witness, got=repr(got)[:600], twin=repr(twin)[:600]))
     if blocked_while_storage:
         ctx.violation('a producer had to wait for the buffer lock while the flusher was inside a wrapped-storage call', dict(witness, events=blocked_while_storage[:3]))
 
@@ -265,6 +285,8 @@ def norm_req(op):
         return ('set', 'C%d_%d' % op[1], op[2], op[3])
     if op[0] == 'meta':
         return ('meta', 'C%d_%d' % op[1], op[2])
+    if op[0] == 'metav':
+        return ('metav', 'C%d_%d' % op[1], op[2], type(op[3]).__name__, op[3])
     return ('save', 'C%d_%d' % op[1])
 
 
@@ -331,6 +353,10 @@ def stress(ctx, n):
         w = {'producers': rng.randrange(1, 4), 'recordings': rng.randrange(1, 3), 'writes': rng.randrange(1, 4)}
         if rng.random() < 0.3:
             w['abort'] = rng.choice(['before_save', 'after_save'])
+        if rng.random() < 0.25:
+            w['retype_meta'] = True
+        if rng.random() < 0.2:
+            w = {'producers': w['producers'], 'recordings': 2, 'writes': 1, 'interleaved': True}
         fail_at = rng.choice([None, None, rng.randrange(1, 6)])
         store = make_spy_store(lambda: time.sleep(0) if rng.random() < 0.5 else None, fail_at=fail_at)
         cas = AsyncRecordOnlyTapeCassette(store, flush_interval=rng.choice([0.0001, 0.001, 0.01]), timeout_on_close=60)
@@ -486,6 +512,9 @@ def run(ctx):
             plan.append(({'producers': 2, 'recordings': 1, 'writes': 2}, fail_at, 1, 1, 1500, 20000))
     plan.append(({'producers': 1, 'recordings': 1, 'writes': 2, 'abort': 'before_save'}, None, 1, 2, 100 if ctx.quick else 2000, 600 if ctx.quick else 20000))
     plan.append(({'producers': 2, 'recordings': 1, 'writes': 1, 'abort': 'after_save'}, None, 1 if not ctx.quick else 0, 1, 100 if ctx.quick else 2000, 200 if ctx.quick else 20000))
+    plan.append(({'producers': 1, 'recordings': 1, 'writes': 1, 'retype_meta': True}, None, 0, 1, 60 if ctx.quick else 1000, 50 if ctx.quick else 5000))
+    plan.append(({'producers': 1, 'recordings': 2, 'writes': 1, 'interleaved': True}, None, 1, 2, 100 if ctx.quick else 2000, 400 if ctx.quick else 20000))
+    plan.append(({'producers': 2, 'recordings': 2, 'writes': 1, 'interleaved': True}, None, 0, 1, 100 if ctx.quick else 3000, 50 if ctx.quick else 5000))
     plan = [p + (None,) for p in plan]
     # timeout_on_close expiring (the join of the flusher is a timed wait whose timer may fire): exactly-once and order still hold
     plan.append(({'producers': 1, 'recordings': 1, 'writes': 2}, None, 1, 2, 150 if ctx.quick else 3000, 400 if ctx.quick else 20000, 5.0))
